@@ -169,6 +169,13 @@ def deferred(ctx, rule: str, targets, fn, *args, **kwargs):
     failing = [o for o in sub.obligations if not o["ok"]]
     for kind in ("files", "functions"):
         ctx.analysed[kind] |= sub.analysed[kind]
+    # only objections about the modelled functions themselves can be "about the spelling": a failing obligation on another
+    # construct (a class constant the rule group also looks at, ...) stands whatever the models say
+    foreign = [o for o in failing if not any(str(o["construct"]).startswith(t.split("/")[0]) for t in targets)]
+    if foreign:
+        ctx.obligations.extend(foreign)
+        failing = [o for o in failing if o not in foreign]
+        sub.obligations = [o for o in sub.obligations if o not in foreign]
     if (failing or err is not None) and targets and all(agrees(ctx, t) for t in targets):
         ctx.obligations.extend(o for o in sub.obligations if o["ok"])
         what = str(err)[:120] if err is not None else "; ".join(o["what"][:60] for o in failing[:2])
